@@ -35,7 +35,7 @@ func runC12(c *an.Ctx) {
 	checkSubscriptionTableStable(c, "C12.b")
 	gbh := p.Method("store", "Store", "GetByHeight")
 	lookup := p.Method("store", "Store", "getByHeight")
-	wait := p.Method("store", "heightSub", "Wait")
+	wait := waitBody(c)
 	setH := p.Method("store", "heightSub", "SetHeight")
 	notifyPub := p.Method("store", "heightSub", "Notify")
 	notify := p.Method("store", "heightSub", "notify")
@@ -109,6 +109,8 @@ func runC12(c *an.Ctx) {
 			}
 		}
 	}
+
+	checkLookupAfterSubscription(c, "C12.a", gbh, lookup, wait)
 
 	// --- C12.b Wait: one critical section for re-check + registration
 	// The critical section may live in Wait itself or in a helper method of heightSub that Wait
